@@ -866,7 +866,7 @@ Definition transform (ip ic : bool) (t : tree) : res tv :=
 Fixpoint tv_to_value (x : tv) : res value :=
   match x with
   | TVal v => Ok v
-  | TTok _ => Err PyTypeError
+  | TTok t => Ok (VStr (pk_orig t))     (* a leftover Token is a str subclass carrying its original text *)
   | TSeq l => do vs <- (fix go (l : list tv) : res (list value) :=
                           match l with
                           | [] => Ok []
